@@ -165,14 +165,16 @@ func typeof(i interface{}) reflect.Type {
 	}
 }
 
+// uuidLen is the length of the textual form of a uuid
+const uuidLen = 36
+
 func uuidExt(name string) (uuid, ext string) {
-	s := strings.SplitN(name, ".", 2)
-	uuid = s[0]
-	// a file name may have no extension at all
-	if len(s) > 1 {
-		ext = fmt.Sprintf(".%s", s[1])
+	// a uuid has a fixed length, the extension is what follows: it may be
+	// empty, and nothing forces it to start with a dot
+	if len(name) >= uuidLen {
+		return name[:uuidLen], name[uuidLen:]
 	}
-	return
+	return name, ""
 }
 
 func uuidsFromDir(dir string) (uuids map[string]bool, err error) {
